@@ -230,6 +230,10 @@ class C03(Monitor):
                         self.ck(len(recs) == 1, "terminal_only_record", who)
                     if r.record_type == "service":
                         self.ck(numeric_dest(r.destination), "service_destination", who)
+                    if r.record_type == "renege" and numeric_dest(r.destination):
+                        tgt = self.renege_target(ind, r, k)
+                        self.ck(tgt is None or r.destination == tgt, "renege_record_destination",
+                                lambda: "%s names destination %s, the customer was sent to %s" % (who(), r.destination, tgt))
                 self.checked[idn] = len(recs)
                 # location vs last record
                 if recs:
@@ -896,6 +900,28 @@ class C10(Monitor):
 
     def at_end(self):
         self.services()
+        # completeness: when the run returns at the horizon T, every stream's next (not yet executed) arrival is due at
+        # or after T -- a stream that silently stops arriving breaks "arrivals occur at the partial sums"
+        Q = self.Q
+        T = Q.flags.get("T")
+        if T is None:
+            return
+        for nd, per_cls in Q.inter_arrival_times.items():
+            for cl, A in per_cls.items():
+                if A is None or not hasattr(A, "log"):
+                    continue
+                j = self.arr_count.get((nd, cl), 0)
+                draws = [v for (_, _, v) in A.log]
+                if len(draws) < j + 1:
+                    continue
+                nxt = 0
+                for v in draws[:j + 1]:
+                    nxt = nxt + v
+                if isinstance(nxt, float) and not is_sym(nxt) and isinf(nxt):
+                    continue
+                self.ck(LE(T, nxt), "arrival_missing_before_horizon",
+                        lambda: "stream %s: %d arrivals happened, the next is due at %s, but the run returned at horizon %s" % ((nd, cl), j, nxt, T))
+                self.seen("c10_streams_complete")
 
     def services(self):
         Q = self.Q
